@@ -286,6 +286,18 @@ def programs(tier, rnd):
         return m
     lp('robust-socp', m5)
 
+    def m7():
+        # the stand-alone rsome.lp front end: its formula class (LinProg) has its own show()
+        from rsome import lp as rlp
+        m = rlp.Model()
+        x = m.dvar(2)
+        y = m.dvar(vtype='I')
+        m.min(-3 * x[0] + x[1] - 4 * y)
+        for c in (2.5 * x[0] + y <= 20, x[0] - x[1] + 2 * y <= 16, x[1] >= -1.5, x <= 7, y <= 3.5, y >= -2):
+            m.st(c)
+        return m
+    lp('lp-front-end', m7)
+
     # rows WITHOUT coefficients (zero row of a data matrix, cancelled terms): `0 == c` / `0 <= c` decide feasibility on their
     # own and must survive the export with their sense (one member per sense x sign of the constant)
     for tag, rel, c in (('eq-pos', 'eq', 1.0), ('eq-neg', 'eq', -1.0), ('eq-zero', 'eq', 0.0), ('le-pos', 'le', 2.0),
